@@ -76,11 +76,20 @@ def run(R):
     while S + k * cc.L < 2 ** 256:
         add(m, pk, sig[:32] + cc.le32(S + k * cc.L), ("S+kL", k))
         k += 1
+    for hi, (m2, pk2, sig2) in enumerate(honest[1:4]):      # the same for further honest triples (whether a non-canonical S survives the rest of the computation depends on S)
+        S2_ = int.from_bytes(bytes(sig2[32:]), "little")
+        k = 1
+        while S2_ + k * cc.L < 2 ** 256:
+            add(m2, pk2, sig2[:32] + cc.le32(S2_ + k * cc.L), ("S+kL", hi + 1, k))
+            k += 1
     add(m, pk, sig[:32] + cc.le32(cc.L), ("S=L", 0))
     add(m, pk, sig[:32] + cc.le32(cc.L - 1), ("S=L-1", 0))
     add(m, pk, sig[:32] + [255] * 32, ("S=2^256-1", 0))
-    # the neutral public key: h*A vanishes, the equation reads Encode(S*B) = R
     ident = cc.le32(1)
+    # S = 0 with the neutral R under an honest key (the equation would need h*A = 0), and with R = the key itself
+    add(m, pk, ident + cc.le32(0), ("S=0", "R=neutral"))
+    add(m, pk, pk + cc.le32(0), ("S=0", "R=A"))
+    # the neutral public key: h*A vanishes, the equation reads Encode(S*B) = R
     for S2, name in [(0, "0"), (1, "1"), (cc.L - 1, "L-1"), (cc.L - 2, "L-2"), (2 ** 252, "2^252")]:
         add(rb("nm", 5), ident, cc.enc_mul_base(S2) + cc.le32(S2), ("neutral", name))
     js = range(0, 252) if thorough else list(range(120, 130)) + list(range(160, 232, 4)) + [0, 56, 112, 125, 167, 168, 223, 224, 251]
